@@ -212,6 +212,18 @@ fn run_agg(plan: &Plan, lib: &dyn Lib, rec: &mut Rec) {
         rec.expect("C06", "decision-equals-reference", out.is_ok() == exp, || {
             format!("{} scheme={} g={} | n={} repeated_message={}: library says {}, reference AggregateVerify (distinct-message rule for Basic only) says {}", label, sch, g.name(), list.len(), repeated, out.kind(), exp)
         });
+        // the same list through the scheme trait's own entry point with an iterator of another kind (a filtered, generated,
+        // chained or flattened iterator reports other size bounds than a slice does): the decision may not depend on it
+        let kind = [(list.len() as u8 + label.len() as u8) % 5];
+        let mut targs: Vec<&[u8]> = vec![&kind, agg.as_slice()];
+        for (pk, m) in list {
+            targs.push(pk.as_slice());
+            targs.push(m.as_slice());
+        }
+        let tout = rec.call(lib, g, Op::AggVerifyTrait, &targs);
+        rec.expect("C06", "decision-equals-reference", tout.is_ok() == exp, || {
+            format!("{} via-trait-iterator-kind-{} scheme={} g={} | n={} repeated_message={}: the scheme trait's aggregate_verify says {}, reference says {}", label, kind[0], sch, g.name(), list.len(), repeated, tout.kind(), exp)
+        });
         if let Some(m) = must {
             rec.expect("C06", if m { "exact-list-verifies" } else { "perturbed-list-rejected" }, out.is_ok() == m, || {
                 format!("{} scheme={} g={} | n={} repeated_message={}: expected {} but library says {}", label, sch, g.name(), list.len(), repeated, if m { "accept" } else { "reject" }, out.kind())
